@@ -1058,6 +1058,20 @@ func Park() {
 	s.switchTo(t, next)
 }
 
+// ParkResumable freezes the running task until nobody else can make progress
+// (a slow callback / slow node: everybody else runs as far as they can, then
+// the task continues).
+//
+//go:norace
+func ParkResumable() {
+	s := cur
+	if s == nil || !s.running || s.killed {
+		return
+	}
+	s.cur.StallResume = true
+	Park()
+}
+
 // Unstall makes a stalled task runnable again (faults stop).
 //
 //go:norace
